@@ -194,6 +194,17 @@ EXTRA = [
     ('comment_hash_bang_later', b'x = 1\n#!not a shebang\nprint(x)\n'),
     ('space_before_shebang', b' #!/usr/bin/python\nprint(1)\n' if False else b'#! /usr/bin/python\nprint(1)\n'),
     ('formfeed', b'x = 1\n\x0cprint(x)\n'),
+    # characters str.splitlines() treats as line ends but the tokenizer (and bytes.splitlines) do not: they belong to the shebang line
+    ('shebang_formfeed_inside', b'#!/usr/bin/env python\x0c -u\nprint(1)\n'),
+    ('shebang_vtab_inside', b'#!/usr/bin/env python\x0b -u\nprint(1)\n'),
+    ('shebang_fs_gs_rs_inside', b'#!/usr/bin/env python \x1c a \x1d b \x1e c\nprint(1)\n'),
+    ('shebang_nel_inside', u'#!/usr/bin/env python \x85 -u\nprint(1)\n'.encode('utf-8')),
+    ('shebang_ls_ps_inside', u'#!/usr/bin/env python \u2028 a \u2029 b\nprint(1)\n'.encode('utf-8')),
+    ('shebang_ls_crlf', u'#!/usr/bin/env python \u2028 a\r\nprint(1)\r\n'.encode('utf-8')),
+    ('hash_bang_in_string_later', b'""""doc\n#!/bin/sh\necho hi\n"""\nprint(1)\n'),
+    ('licence_then_hash_bang', b'# licence header\n#!/usr/bin/python\nprint(1)\n'),
+    ('shebang_with_tab_and_spaces', b'#!\t/usr/bin/python   -O  \nprint(1)\n'),
+    ('shebang_unicode_text', u'#!/usr/bin/env pyth\u00f6n \u4e2d\nprint(1)\n'.encode('utf-8')),
     ('mixed_newlines', b'x = 1\r\ny = 2\rz = 3\nprint(x, y, z)\n'),
     ('trailing_no_newline', b'print(1)'),
     ('string_with_cr', b'x = "a\\rb"\ny = """l1\r\nl2\rl3\nl4"""\nprint(repr(y))\n'),
